@@ -703,7 +703,7 @@ fn op_cand(np: usize, tie_seed: u64, ops: &str) -> String {
             let mut res: Vec<String> = vec![];
             for op in ops.iter() {
                 let step = std::panic::AssertUnwindSafe(apply_cand(&mut s, op));
-                let reply = match tokio::time::timeout(std::time::Duration::from_secs(5), futures_catch(step)).await {
+                let reply = match tokio::time::timeout(std::time::Duration::from_millis(1500), futures_catch(step)).await {
                     Ok(Ok(r)) => r,
                     Ok(Err(())) => {
                         res.push("PANIC".into());
@@ -953,7 +953,7 @@ pub fn gen_cand(r: &mut Rng, n: usize) -> Vec<String> {
                 }
                 ops.push(op.clone());
                 let step_f = std::panic::AssertUnwindSafe(apply_cand(&mut s, &op));
-                let reply = match tokio::time::timeout(std::time::Duration::from_secs(5), futures_catch(step_f)).await {
+                let reply = match tokio::time::timeout(std::time::Duration::from_millis(1500), futures_catch(step_f)).await {
                     Ok(Ok(r)) => r,
                     _ => break,
                 };
